@@ -15,8 +15,9 @@ One Lean function per Go function, same order of checks:
                              — packet_handler_tunnel_bridge.go, packet_handler_tunnel.go, cross_node_session.go
 
 Scope of the model (what is a parameter, not modelled code):
-* the stream of the requesting connection carries no client id of its own (`extractClientID` = 0: no reader or
-  stream type in the repository implements `GetClientID`), so no temporary control connection is created;
+* the transport object behind the stream may assert a client id (`GetClientID`) and allow a temporary control
+  connection (`CanCreateTemporaryControlConn`): both are inputs (`ConnIdent.streamClientID`, `.tempOK`); no
+  transport in the repository does so today, the harness drives these paths with a double;
 * the tunnel state is the state *at arrival*, plus (`Late`) the bridge / waiting route that appears while a
   request that found nothing at arrival is polling;
 * a bridge for tunnel id `t` exists only for a mapping that existed when it was created (`startSourceBridge`).
@@ -29,6 +30,8 @@ structure World where
   mappings : List PortMapping
   now : Nat
   nodeID : String
+  /-- nodes whose address cannot be resolved / dialled (`CreateDedicatedConnection` fails) -/
+  unreachable : List String := []
 deriving Repr
 
 /-- `CloudControl.GetPortMapping` / `PortMappingService.GetPortMapping`: lookup by id (`none` = not found). -/
@@ -42,6 +45,17 @@ structure ConnIdent where
   /-- `ControlConnection.ClientID` (0 = none) -/
   clientID : Nat
   /-- `ControlConnection.Authenticated` -/
+  authenticated : Bool
+  /-- the transport object behind the stream (`conn.Stream.GetReader()`) answers `CanCreateTemporaryControlConn()`
+  with true (a transport that authenticated its peer itself) -/
+  tempOK : Bool
+  /-- what that transport object answers to `GetClientID()` (0 = it has no such method / no client) -/
+  streamClientID : Nat
+deriving DecidableEq, Repr
+
+/-- The control connection `handleTunnelOpen` works with. -/
+structure ClientConn where
+  clientID : Nat
   authenticated : Bool
 deriving DecidableEq, Repr
 
@@ -120,35 +134,42 @@ def handleTunnelOpenAuth (w : World) (clientID : Nat) (req : Req) : Bool :=
       else true
   else false
 
-/-- `findOrCreateControlConnection`: the registered control connection of this connection id, if any. -/
-def findControlConnection (id : ConnIdent) : Option ConnIdent :=
-  if id.hasControl then some id else none
+/-- `findOrCreateControlConnection`: the control connection registered under this connection id; else, when
+the transport object allows it, a temporary one carrying the client id the transport asserts (authenticated
+exactly when that id is positive); else none (failure ack).  The stream processor itself has no client id. -/
+def findControlConnection (id : ConnIdent) : Option ClientConn :=
+  if id.hasControl then some ⟨id.clientID, id.authenticated⟩
+  else if id.tempOK then some ⟨id.streamClientID, decide (id.streamClientID > 0)⟩
+  else none
 
-/-- `extractClientID(conn.Stream, netConn)`: the stream carries no client id (see scope). -/
-def extractClientID : Nat := 0
+/-- `extractClientID(conn.Stream, netConn)`: the client id the transport object asserts (0 = none). -/
+def extractClientID (id : ConnIdent) : Nat := id.streamClientID
 
 /-- `handleExistingBridge`: success ack, then source (reconnect) or target by the *stream's* client id. -/
-def handleExistingBridge (w : World) (req : Req) : Outcome :=
+def handleExistingBridge (w : World) (id : ConnIdent) (req : Req) : Outcome :=
   ⟨.ok,
    (if req.MappingID != "" then
       match w.getPortMapping req.MappingID with
-      | some mapping => if extractClientID == mapping.ListenClientID then .source else .target
+      | some mapping => if extractClientID id == mapping.ListenClientID then .source else .target
       | none => .target
     else .target),
    .switch⟩
 
 /-- `isSourceClient` (the post-authorisation one in packet_handler_tunnel.go). -/
-def isSourceClient (w : World) (id : ConnIdent) (req : Req) : Bool :=
+def isSourceClient (w : World) (id : ConnIdent) (clientConn : ClientConn) (req : Req) : Bool :=
   if req.MappingID == "" then false
   else match w.getPortMapping req.MappingID with
     | none => false
     | some mapping =>
-      (if extractClientID == 0 && id.authenticated then id.clientID else extractClientID) == mapping.ListenClientID
+      (if extractClientID id == 0 && clientConn.authenticated then clientConn.clientID else extractClientID id)
+        == mapping.ListenClientID
 
 /-- `processCrossNodeForward` after the mapping check: a route to this very node waits for the local
 bridge (never appears in a fixed tunnel state: times out without any ack); otherwise forward. -/
 def processCrossNodeForward (w : World) (node : String) : Outcome :=
-  if node == w.nodeID then ⟨.none, .none, .pending⟩ else ⟨.ok, .forward node, .switch⟩
+  if node == w.nodeID then ⟨.none, .none, .pending⟩
+  else if w.unreachable.contains node then ⟨.ok, .none, .err⟩   -- forwardToSourceNode: ack, then the dial fails
+  else ⟨.ok, .forward node, .switch⟩
 
 /-- What appears for `req.TunnelID` WHILE a request that found nothing at arrival polls the routing table
 (`handleTargetBridge` → `handleCrossNodeTargetConnection` → `lookupTunnelRouting`). -/
@@ -158,6 +179,9 @@ inductive Late
   /-- a waiting route for the tunnel is registered by node `node` for `mappingID` (`startSourceBridge` on that
   node); `bridgeAppears`: on this node the bridge itself is there too (it is registered before the route) -/
   | route (mappingID : String) (node : String) (bridgeAppears : Bool)
+  /-- configuration: this node has no routing table (`tunnelRouting == nil`): nothing can be polled,
+  `handleCrossNodeTargetConnection` fails at once -/
+  | noRouting
   /-- a bridge for `mappingID` is registered on this node in the WINDOW between the dispatcher's own look-up of
   `tunnelBridges` (nothing found, success ack written) and the second look-up inside `handleTargetBridge` /
   the insert-if-absent of `startSourceBridge` -/
@@ -174,6 +198,7 @@ returns the mode-switch error, which `handleTargetBridge` wraps into a plain err
 def processCrossNodeForwardLate (w : World) (req : Req) (mappingID node : String) (bridgeAppears : Bool) : Outcome :=
   if mappingID != req.MappingID then ⟨.ok, .none, .err⟩
   else if node == w.nodeID then handleLocalBridgeWait bridgeAppears
+  else if w.unreachable.contains node then ⟨.ok, .none, .err⟩
   else ⟨.ok, .forward node, .err⟩
 
 /-- `handleTargetBridge` (success ack already out): the second look-up of `tunnelBridges` — a bridge found
@@ -182,6 +207,7 @@ def handleTargetBridge (w : World) (req : Req) : Late → Outcome
   | .window mappingID =>
     if mappingID != req.MappingID then ⟨.ok, .none, .err⟩ else ⟨.ok, .target, .switch⟩
   | .none => ⟨.ok, .none, .pending⟩
+  | .noRouting => ⟨.ok, .none, .err⟩
   | .route mappingID node bridgeAppears => processCrossNodeForwardLate w req mappingID node bridgeAppears
 
 /-- `handleSourceBridge` → `startSourceBridge`: insert-if-absent under `bridgeLock`; a bridge registered in
@@ -200,11 +226,11 @@ def openTunnelDyn (w : World) (id : ConnIdent) (req : Req) (ts : TunnelState) (l
       if !(handleTunnelOpenAuth w clientConn.clientID req) then refuse
       else match ts with
         | .bridge mappingID _ =>
-          if mappingID != req.MappingID then refuse else handleExistingBridge w req
+          if mappingID != req.MappingID then refuse else handleExistingBridge w id req
         | .remote mappingID node =>
           if mappingID != req.MappingID then refuse else processCrossNodeForward w node
         | .none =>
-          if isSourceClient w clientConn req then handleSourceBridge late
+          if isSourceClient w id clientConn req then handleSourceBridge late
           else handleTargetBridge w req late
 
 /-- The dispatcher when nothing changes while the request is handled. -/
@@ -269,7 +295,7 @@ any credential check, for whatever connection names the tunnel id.  Kept to stat
 def openTunnelAsFound (w : World) (id : ConnIdent) (req : Req) (ts : TunnelState) : Outcome :=
   if !req.wellFormed then refuse
   else match ts with
-    | .bridge _ _ => handleExistingBridge w req
+    | .bridge _ _ => handleExistingBridge w id req
     | .remote _ node => processCrossNodeForward w node
     | .none => openTunnel w id req .none
 
